@@ -11,6 +11,7 @@ import (
 	"time"
 
 	v1 "k8s.io/api/core/v1"
+	resourceapi "k8s.io/api/resource/v1"
 	schedulingv1 "k8s.io/api/scheduling/v1"
 	"k8s.io/apimachinery/pkg/api/resource"
 	metav1 "k8s.io/apimachinery/pkg/apis/meta/v1"
@@ -59,6 +60,7 @@ type Node struct {
 	Unschedulable bool              `json:"unschedulable,omitempty"`
 	Ext           map[string]int    `json:"ext,omitempty"` // extended resources incl. MIG instances
 	MigStrategy   string            `json:"migStrategy,omitempty"`
+	DRA           map[string]int    `json:"dra,omitempty"` // DRA devices of the node per device class (one ResourceSlice each)
 	// hostile worlds
 	NoLabels  bool              `json:"noLabels,omitempty"`  // strip every label (incl. hostname, gpu.count)
 	RawLabels map[string]string `json:"rawLabels,omitempty"` // applied last, may overwrite nvidia.com/gpu.count etc.
@@ -144,6 +146,7 @@ type Pod struct {
 	Ext       map[string]int `json:"ext,omitempty"`
 	InitCPU   int            `json:"initCpu,omitempty"`
 	InitGPUs  int            `json:"initGpus,omitempty"`
+	Claims    []Claim        `json:"claims,omitempty"` // DRA resource claims (one ResourceClaim object per entry, owned by the pod)
 	// raw annotation overrides (hostile worlds)
 	RawAnnotations map[string]string `json:"rawAnnotations,omitempty"`
 	NoContainers   bool              `json:"noContainers,omitempty"`
@@ -160,6 +163,18 @@ type Pod struct {
 	CreatedMin int      `json:"createdMin,omitempty"`
 	Scheduler  string   `json:"scheduler,omitempty"` // other scheduler's pod when set
 }
+
+// Claim is one DRA resource claim of a pod: Count devices of a device class. Devices is set for pods that
+// already hold the claim (running / terminating / binding): indices of the node's devices of that class.
+type Claim struct {
+	Name    string `json:"name"`
+	Class   string `json:"class"`
+	Count   int    `json:"count"`
+	Devices []int  `json:"devices,omitempty"`
+}
+
+// ClaimObjectName is the name of the ResourceClaim object behind a pod's claim.
+func ClaimObjectName(pod, claim string) string { return pod + "-" + claim }
 
 type Group struct {
 	Name           string          `json:"name"`
@@ -257,7 +272,98 @@ type Objects struct {
 	BindRequests    []*schedulingv1alpha2.BindRequest
 	PriorityClasses []*schedulingv1.PriorityClass
 	Topologies      []*kaiv1alpha1.Topology
+	DeviceClasses   []*resourceapi.DeviceClass
+	ResourceSlices  []*resourceapi.ResourceSlice
+	ResourceClaims  []*resourceapi.ResourceClaim
 }
+
+// HasDRA tells whether the world uses dynamic resource allocation at all.
+func (w *World) HasDRA() bool {
+	for i := range w.Nodes {
+		if len(w.Nodes[i].DRA) > 0 {
+			return true
+		}
+	}
+	for gi := range w.Groups {
+		for pi := range w.Groups[gi].Pods {
+			if len(w.Groups[gi].Pods[pi].Claims) > 0 {
+				return true
+			}
+		}
+	}
+	return false
+}
+
+// ClaimAllocation is the allocation result of a claim that holds the given devices of a node.
+func ClaimAllocation(class, node string, devices []int) *resourceapi.AllocationResult {
+	a := &resourceapi.AllocationResult{
+		NodeSelector: &v1.NodeSelector{NodeSelectorTerms: []v1.NodeSelectorTerm{{
+			MatchFields: []v1.NodeSelectorRequirement{{Key: "metadata.name", Operator: v1.NodeSelectorOpIn, Values: []string{node}}}}}},
+	}
+	for _, d := range devices {
+		a.Devices.Results = append(a.Devices.Results, resourceapi.DeviceRequestAllocationResult{
+			Request: "request", Driver: class, Pool: node, Device: strconv.Itoa(d)})
+	}
+	return a
+}
+
+// BuildDRA renders device classes, one ResourceSlice per (node, class) and one ResourceClaim per pod claim.
+func (w *World) BuildDRA(o *Objects) {
+	classes := map[string]bool{}
+	for i := range w.Nodes {
+		n := &w.Nodes[i]
+		cls := make([]string, 0, len(n.DRA))
+		for c := range n.DRA {
+			cls = append(cls, c)
+		}
+		sort.Strings(cls)
+		for _, c := range cls {
+			classes[c] = true
+			sl := &resourceapi.ResourceSlice{
+				ObjectMeta: metav1.ObjectMeta{Name: n.Name + "-" + c, ResourceVersion: "0"},
+				Spec:       resourceapi.ResourceSliceSpec{Driver: c, Pool: resourceapi.ResourcePool{Name: n.Name, ResourceSliceCount: 1}, NodeName: ptrTo(n.Name)},
+			}
+			for d := 0; d < n.DRA[c]; d++ {
+				sl.Spec.Devices = append(sl.Spec.Devices, resourceapi.Device{Name: strconv.Itoa(d)})
+			}
+			o.ResourceSlices = append(o.ResourceSlices, sl)
+		}
+	}
+	for gi := range w.Groups {
+		g := &w.Groups[gi]
+		for pi := range g.Pods {
+			p := &g.Pods[pi]
+			for _, c := range p.Claims {
+				classes[c.Class] = true
+				rc := &resourceapi.ResourceClaim{
+					ObjectMeta: metav1.ObjectMeta{Name: ClaimObjectName(p.Name, c.Name), Namespace: Namespace, ResourceVersion: "0", UID: types.UID("claim-" + p.Name + "-" + c.Name),
+						OwnerReferences: []metav1.OwnerReference{{APIVersion: "v1", Kind: "Pod", Name: p.Name, UID: types.UID("uid-" + p.Name)}}},
+					Spec: resourceapi.ResourceClaimSpec{Devices: resourceapi.DeviceClaim{Requests: []resourceapi.DeviceRequest{{Name: "request",
+						Exactly: &resourceapi.ExactDeviceRequest{DeviceClassName: c.Class, AllocationMode: resourceapi.DeviceAllocationModeExactCount, Count: int64(c.Count)}}}}},
+				}
+				// a pod that is on its node holds its claims; a pod that is being bound gets them from its BindRequest
+				if len(c.Devices) > 0 && p.Node != "" && (p.State == Running || p.State == Terminating || p.State == BoundP) {
+					rc.Status.Allocation = ClaimAllocation(c.Class, p.Node, c.Devices)
+					rc.Status.ReservedFor = []resourceapi.ResourceClaimConsumerReference{{Resource: "pods", Name: p.Name, UID: types.UID("uid-" + p.Name)}}
+				}
+				o.ResourceClaims = append(o.ResourceClaims, rc)
+			}
+		}
+	}
+	cls := make([]string, 0, len(classes))
+	for c := range classes {
+		cls = append(cls, c)
+	}
+	sort.Strings(cls)
+	for _, c := range cls {
+		o.DeviceClasses = append(o.DeviceClasses, &resourceapi.DeviceClass{
+			ObjectMeta: metav1.ObjectMeta{Name: c, ResourceVersion: "0"},
+			Spec:       resourceapi.DeviceClassSpec{Selectors: []resourceapi.DeviceSelector{{CEL: &resourceapi.CELDeviceSelector{Expression: fmt.Sprintf("device.driver == %q", c)}}}},
+		})
+	}
+}
+
+func ptrTo[T any](v T) *T { return &v }
 
 func qty(n int64) resource.Quantity { return *resource.NewQuantity(n, resource.DecimalSI) }
 
@@ -327,6 +433,7 @@ func (w *World) Build(now time.Time) *Objects {
 			Status:     schedulingv1alpha2.BindRequestStatus{Phase: rb.Phase, FailedAttempts: rb.FailedAttempts},
 		})
 	}
+	w.BuildDRA(o)
 	return o
 }
 
@@ -527,6 +634,12 @@ func BuildPod(g *Group, p *Pod, now time.Time) *v1.Pod {
 		}
 		pod.Spec.InitContainers = []v1.Container{{Name: "init", Image: "x", Resources: v1.ResourceRequirements{Requests: ireq, Limits: ireq.DeepCopy()}}}
 	}
+	for _, c := range p.Claims {
+		pod.Spec.ResourceClaims = append(pod.Spec.ResourceClaims, v1.PodResourceClaim{Name: c.Name, ResourceClaimName: ptrTo(ClaimObjectName(p.Name, c.Name))})
+		if len(pod.Spec.Containers) > 0 {
+			pod.Spec.Containers[0].Resources.Claims = append(pod.Spec.Containers[0].Resources.Claims, v1.ResourceClaim{Name: c.Name})
+		}
+	}
 	if len(p.Affinity) > 0 {
 		term := v1.NodeSelectorTerm{}
 		for _, a := range p.Affinity {
@@ -643,6 +756,12 @@ func BuildBindRequest(pod *v1.Pod, node string, groups []string, p *Pod) *schedu
 			n = 1
 		}
 		br.Spec.ReceivedGPU = &schedulingv1alpha2.ReceivedGPU{Count: n, Portion: portion}
+	}
+	for _, c := range p.Claims {
+		if len(c.Devices) > 0 {
+			br.Spec.ResourceClaimAllocations = append(br.Spec.ResourceClaimAllocations,
+				schedulingv1alpha2.ResourceClaimAllocation{Name: c.Name, Allocation: ClaimAllocation(c.Class, node, c.Devices)})
+		}
 	}
 	return br
 }
